@@ -741,12 +741,22 @@ class Scheduler:
         self.switches.append([-1, -2, first, "start", "start"])
         self.current = first
         self.workers[first].sem.release()
-        if not self._done.wait(timeout):
-            # (the carriers of this run stay out of the pool: they may never come back)
-            raise kit.HarnessError(
-                f"scheduler: threads did not finish within {timeout}s "
-                f"(current={self.current}, step={self.step})"
-            )
+        # wall-clock never decides a run: the step cap bounds it.  The clock is only consulted to
+        # tell a run that is stuck outside the scheduler's reach (no step for `timeout` seconds)
+        # from one that is merely slow on a loaded machine (a 46 000-step run with 14 000 switches
+        # once took > 120 s under 16-fold load and was wrongly given up as a harness error).
+        last_step, idle = -1, 0.0
+        while not self._done.wait(5.0):
+            if self.step != last_step:
+                last_step, idle = self.step, 0.0
+                continue
+            idle += 5.0
+            if idle >= timeout:
+                # (the carriers of this run stay out of the pool: they may never come back)
+                raise kit.HarnessError(
+                    f"scheduler: no step for {timeout}s "
+                    f"(current={self.current}, step={self.step})"
+                )
         for c in carriers:
             if c.finished.wait(5.0):
                 _Carrier.put(c)
